@@ -1,6 +1,6 @@
 
 // ===== appended by /verif (scratch copy only): constructors for private records =====
-#[cfg(kani)]
+#[cfg(any(kani, verif_kernels))]
 pub(crate) mod kani_hooks_astro {
     use super::*;
     use crate::geo::coordinates::*;
@@ -8,6 +8,10 @@ pub(crate) mod kani_hooks_astro {
 
     pub fn mk_astro(dra: f64, dec: f64, ra: f64, rsum: f64, sid_time: f64) -> Astro {
         Astro { dra, dec, ra, rsum, sid_time }
+    }
+
+    pub fn read_rsum(a: &Astro) -> f64 {
+        a.rsum
     }
 
     pub fn const_astro() -> Astro {
